@@ -20,7 +20,7 @@ func init() {
 			`R04.4 symlink destinations read from disk are compared with / created from the signed Dest modulo filepath.FromSlash only (tlc records Readlink verbatim). ` +
 			`R04.6 also: the strong hash written does not come out of a variable that survives from one block to the next (captured variable, field, package variable, map). ` +
 			`R13.10 (shared) ReadMessage fails on a decoded length beyond a constant only if WriteMessage fails beyond a constant that is not larger (the container is one message). ` +
-			`R13.12 (shared) CompressWire hands back its input context only through the outcome Algorithm == NONE. R04.7 every string-keyed map in package pwr whose key derives from an entry's Path (ComputeHashInfo's path-to-index map, WritePatch's) is keyed by the path itself or a one-to-one image (separators converted, Clean, a constant added) - never through ToLower/Base/Trim/a slice. R08.7 (shared) the block split function returns data[:blockSize], or data where len(data) >= blockSize is known not to hold. R04.8 no buffer handed to HashBlock / uniqueHash / the weak hash is cut at the count a single Read returned (io.ReadFull / ReadAtLeast counts and scanner tokens are what the producers use); R04.5 also accepts the count of a read into a buffer cut at a length tested short. NOT decided: block boundaries under re-chunking, hash values, that validating a pristine copy reports nothing.`,
+			`R13.12 (shared) CompressWire hands back its input context only through the outcome Algorithm == NONE. R04.7 every string-keyed map in package pwr whose key derives from an entry's Path (ComputeHashInfo's path-to-index map, WritePatch's) is keyed by the path itself or a one-to-one image (separators converted, Clean, a constant added) - never through ToLower/Base/Trim/a slice. R08.7 (shared) the block split function returns data[:blockSize], or data where len(data) >= blockSize is known not to hold. R04.8 no buffer handed to HashBlock / uniqueHash / the weak hash is cut at the count a single Read returned (io.ReadFull / ReadAtLeast counts and scanner tokens are what the producers use); R04.5 also accepts the count of a read into a buffer cut at a length tested short. R15.7 (shared) nothing that belongs to a pooled object is used after the object was put back (the signer and the differ write through their own wire contexts, concurrently). NOT decided: block boundaries under re-chunking, hash values, that validating a pristine copy reports nothing.`,
 		Run: runC04,
 	})
 }
@@ -126,6 +126,7 @@ func runC04(c *core.Ctx) {
 	rulePassThroughOnlyForNone(c, "R13.12")
 	ruleSplitTokensAreOneBlock(c, "R08.7")
 	ruleHashedBlocksAreReadInFull(c, "R04.8")
+	rulePooledNotUsedAfterPut(c, "R15.7")
 	rulePathKeysAreOneToOne(c, "R04.7", 4, func(fn *ssa.Function) bool { return strings.HasSuffix(core.PkgPathOf(fn), "/pwr") })
 	ruleCopyWritesWhatItRead(c, "R01.6")
 
